@@ -1,7 +1,7 @@
 (** extraction of the C05 model: as-is comparison / hashing / layout models and value-level specs *)
 Require Import FastZ.
 From Dashu Require Import Base.Prelude Int.ReprOrdModel Float.FloatOrdModel Ratio.RatioOrdModel.
-From Dashu Require Import Int.DivSpec Int.GrlSpec Int.ReprOrdArith2Model Cross.XLog2Model Float.DigitsUbModel.
+From Dashu Require Import Int.DivSpec Int.GrlSpec Int.ReprOrdArith2Model Cross.XLog2Model Float.DigitsUbModel Float.FloatOrdProducers2Model.
 From DashuGen Require Import CmpGen DigitsEstGen.
 Extraction "model.ml"
   layout_ok repr_of_layout words_of canonicalb repr_eq ubig_cmp ibig_cmp abs_cmp abs_eq hash_input rvalue
@@ -10,4 +10,4 @@ Extraction "model.ml"
   q_repr_eq q_repr_cmp rbig_eq rbig_abs_eq qcmp_spec qeq_spec qabs reducedb relaxed_ok
   fbig_eq_gen repr_cmp_same_base_gen q_repr_eq_gen q_repr_cmp_gen rbig_eq_gen rbig_abs_eq_gen rbig_hash_fields_gen
   store_fit rlen ibig_bit ibig_not ibig_shift ubig_div_rem ubig_div ubig_rem ibig_divform form_spec
-  digits_ub_est digits_lb_est f_of_bits f_to_bits f32_decode log2_bound_check.
+  digits_ub_est digits_lb_est f_of_bits f_to_bits f32_decode log2_bound_check fprod_asis.
